@@ -147,13 +147,19 @@ class IH5MFRecord(IH5Record):
         manifest_file: Optional[Path] = kwargs.pop("manifest_file", None)
         ret: IH5MFRecord = super()._open(paths, **kwargs)
 
+        # the manifest belongs to the latest COMMITTED container: a newest container without
+        # checksum is an interrupted patch that does not link a manifest yet
+        last = -1
+        if len(ret._files) > 1 and ret._ublock(-1).hdf5_hashsum is None:
+            last = -2
+
         # if not given explicitly, infer correct manifest filename
         # based on logically latest container (they are sorted after parent init)
         if manifest_file is None:
-            manifest_file = cls._manifest_filepath(ret._files[-1].filename)
+            manifest_file = cls._manifest_filepath(ret._files[last].filename)
 
         # for latest container, check linked manifest (if any) against given/inferred one
-        ub = ret._ublock(-1)
+        ub = ret._ublock(last)
         ubext = IH5UBExtManifest.get(ub)
         if ubext is not None:
             if not manifest_file.is_file():
